@@ -109,6 +109,14 @@ pub fn run(s: &dyn Subject, ctx: &Ctx) -> Option<DeclReport> {
                 if o2 != obs {
                     rep.violate("ctor:str-vs-string-differs", raw.show(), o2.show(), obs.show(), String::new());
                 }
+                if st.len() <= 8 {
+                    for (how, o3) in s.ctor_into_variants(st) {
+                        rep.executions += 1;
+                        if o3 != obs {
+                            rep.violate(&format!("ctor:into-string-variant-differs:{how}"), raw.show(), o3.show(), obs.show(), String::new());
+                        }
+                    }
+                }
             }
         }
     }
